@@ -249,13 +249,14 @@ class _Info:
         self.unobserved = set(self.id_of) - self.observed
 
 
-def ask(info, k, batch, scores_by_name, col):
+def ask(info, k, batch, scores_by_name, col, policy=None):
     """One real select_next_plate call.  Returns (allowed names | None if the policy was
-    not consulted, returned plate name | None).  Exceptions propagate."""
+    not consulted, returned plate name | None).  Exceptions propagate.  `policy`: a
+    long-lived policy object to use instead of a fresh one."""
     holder = ChunkedScoresHolder(len(scores_by_name))
     for name, sc in scores_by_name.items():
         holder.add_score(info.id_of[name], sc)
-    rec = _Recorder(KPerSamplePlatePolicy(k))
+    rec = _Recorder(policy if policy is not None else KPerSamplePlatePolicy(k))
     col.evaluations += 1
     got = select_next_plate(
         scores=holder,
@@ -275,6 +276,7 @@ class Ctx:
         self.retro = cfg["variant"] == "retrospective"
         self.infos = {(): _Info(make_screen(build_rows(cfg)))}
         self.hist = {}
+        self.two_call = True
 
     def info(self, revealed, parent=None, newly=None, col=None):
         key = tuple(revealed)
@@ -413,6 +415,58 @@ def expand(ctx, state, col):
             col.violation("C16|select|not-the-best-allowed-plate",
                           f"k={k}: {target} has the best score among the allowed {allowed_now} but {got_now} was returned", _case(ctx, state, note))
         return False
+
+    # The same rules along the whole history with ONE long-lived policy object (what a
+    # long-running simulation does): replay the shortest history reaching this state on a
+    # fresh object - one real call per earlier state - then ask it here.
+    hist_labels = ctx.hist.get(state, [])
+    if hist_labels and (ctx.retro or len(hist_labels) <= 3):
+        try:
+            pol = KPerSamplePlatePolicy(k)
+            b_, r_ = (), ()
+            for lab in hist_labels:
+                inf_ = ctx.infos[tuple(r_)]
+                rem_ = sorted(inf_.unobserved - set(b_))
+                if rem_:
+                    ask(inf_, k, b_, {n: float(len(rem_) - i) for i, n in enumerate(rem_)}, col, policy=pol)
+                if lab == "close":
+                    r_ = tuple(sorted(set(r_) | set(b_)))
+                    b_ = ()
+                else:
+                    b_ = tuple(sorted(b_ + (lab,)))
+            assert (b_, r_) == (tuple(batch), tuple(revealed)), "history replay does not reach the state"
+            allowed_l, _got_l = ask(info, k, batch, scores, col, policy=pol)
+            col.count("long-lived policy replays")
+            if allowed_l is not None:
+                judge_allowed(ctx, info, state, allowed_l, col, {"long_lived_policy_object": True, "target": None})
+        except AssertionError:
+            raise
+        except Exception as exc:  # noqa: BLE001
+            if not exception_origin_in_repo(exc):
+                raise
+            col.violation("C16|raised|long-lived-policy",
+                          f"k={k}: a policy object reused along the history {hist_labels} raised: {short_exc(exc)}", _case(ctx, state))
+
+    # ... and a policy object that was created, and asked once, at the very start of the
+    # simulation (empty batch, nothing revealed yet) and is now asked about this state: a
+    # resumed / pre-seeded batch.  The statement characterises the allowed plates by the
+    # current batch and the remaining plates alone, so the earlier call must not matter.
+    if ctx.two_call and state != ((), ()):
+        try:
+            pol2 = KPerSamplePlatePolicy(k)
+            root_info = ctx.infos[()]
+            rem0 = sorted(root_info.unobserved)
+            if rem0:
+                ask(root_info, k, (), {n: float(len(rem0) - i) for i, n in enumerate(rem0)}, col, policy=pol2)
+            allowed_s, _ = ask(info, k, batch, scores, col, policy=pol2)
+            col.count("two-call histories (start of simulation, then this state)")
+            if allowed_s is not None:
+                judge_allowed(ctx, info, state, allowed_s, col, {"two_call_history": True, "target": None})
+        except Exception as exc:  # noqa: BLE001
+            if not exception_origin_in_repo(exc):
+                raise
+            col.violation("C16|raised|reused-policy-object", f"k={k}: a policy object asked at the start of the simulation and again here raised: {short_exc(exc)}",
+                          _case(ctx, state, {"two_call_history": True}))
 
     first_target = min(legit, key=lambda n: scores[n]) if legit else None
     if not legit:
